@@ -148,6 +148,7 @@ def body_factory(ctx):
             prior = gens.build_prior(spec["prior"])
             smp = gens.build_samples(spec)
         rows_eff = effective_rows(smp, prob.data_unit)
+        gens.check_public_epoch(data, prob, spec)
         path = spec.get("path", "mem")
         joker = tj.TheJoker(prior)
         prehistory(ctx, spec, joker, smp)
